@@ -1,9 +1,9 @@
-// Command vh is the correspondence harness: it runs the implementation under
-// /repo (module replace) on generated inputs / histories / forced schedules and
-// writes one JSON line per observed case.  Each line carries the case as a Coq
-// term (field "coq") which the driver pastes into a case file evaluated by
-// accept / holds inside Coq.
-package main
+// Package vh is the shared part of the correspondence harness.  One command per
+// property (harness/cmd/cxx) runs the implementation under /repo (module replace)
+// on generated inputs / histories / forced schedules and writes one JSON line per
+// observed case.  Each line carries the case as a Coq term (field "coq") which the
+// driver pastes into a case file evaluated by case_accept / case_holds inside Coq.
+package vh
 
 import (
 	"bufio"
@@ -12,7 +12,6 @@ import (
 	"fmt"
 	"math/rand"
 	"os"
-	"sort"
 	"strings"
 
 	"github.com/pinealctx/neptune/ulog"
@@ -68,27 +67,9 @@ func (e *Env) Scale(quick, thorough int) int {
 	return n
 }
 
-type runner struct {
-	fn   func(*Env)
-	help string
-}
-
-var runners = map[string]runner{}
-
-func register(id string, help string, fn func(*Env)) { runners[id] = runner{fn, help} }
-
-func main() {
+// Main parses the command line of a property command and runs fn.
+func Main(id string, fn func(*Env)) {
 	ulog.SetLogLevel(zapcore.FatalLevel)
-	if len(os.Args) < 2 {
-		ids := []string{}
-		for k := range runners {
-			ids = append(ids, k)
-		}
-		sort.Strings(ids)
-		fmt.Println("usage: vh <prop> [-seed n] [-tier quick|thorough] [-search] [-focus class] [-replay arg] -out file; props:", strings.Join(ids, " "))
-		os.Exit(2)
-	}
-	id := os.Args[1]
 	fs := flag.NewFlagSet(id, flag.ExitOnError)
 	seed := fs.Int64("seed", 1, "seed")
 	tier := fs.String("tier", "quick", "tier")
@@ -97,12 +78,7 @@ func main() {
 	replay := fs.String("replay", "", "replay argument")
 	n := fs.Int("n", 0, "volume multiplier")
 	out := fs.String("out", "", "output file (jsonl)")
-	fs.Parse(os.Args[2:])
-	r, ok := runners[id]
-	if !ok {
-		fmt.Fprintln(os.Stderr, "unknown property", id)
-		os.Exit(2)
-	}
+	fs.Parse(os.Args[1:])
 	f := os.Stdout
 	if *out != "" {
 		var err error
@@ -113,7 +89,7 @@ func main() {
 	}
 	w := bufio.NewWriterSize(f, 1<<20)
 	env := &Env{Rnd: rand.New(rand.NewSource(*seed)), Seed: *seed, Thorough: *tier == "thorough", Search: *search, Focus: *focus, Replay: *replay, N: *n, out: w, Meta: map[string]interface{}{}}
-	r.fn(env)
+	fn(env)
 	// trailing meta line
 	mb, _ := json.Marshal(map[string]interface{}{"meta": env.Meta, "cases": env.count})
 	w.Write(mb)
@@ -121,41 +97,40 @@ func main() {
 	w.Flush()
 	f.Close()
 }
-
 // ---- small helpers for printing Coq terms ----
 
-func coqBool(b bool) string {
+func CoqBool(b bool) string {
 	if b {
 		return "true"
 	}
 	return "false"
 }
-func coqZ(v int64) string {
+func CoqZ(v int64) string {
 	if v < 0 {
 		return fmt.Sprintf("(%d)%%Z", v)
 	}
 	return fmt.Sprintf("%d%%Z", v)
 }
-func coqZu(v uint64) string { return fmt.Sprintf("%d%%Z", v) }
-func coqNat(v int) string   { return fmt.Sprintf("%d%%nat", v) }
-func coqList(xs []string) string {
+func CoqZu(v uint64) string { return fmt.Sprintf("%d%%Z", v) }
+func CoqNat(v int) string   { return fmt.Sprintf("%d%%nat", v) }
+func CoqList(xs []string) string {
 	return "[" + strings.Join(xs, "; ") + "]"
 }
-func coqZList(xs []int64) string {
+func CoqZList(xs []int64) string {
 	s := make([]string, len(xs))
 	for i, x := range xs {
-		s[i] = coqZ(x)
+		s[i] = CoqZ(x)
 	}
-	return coqList(s)
+	return CoqList(s)
 }
-func coqBytes(bs []byte) string {
+func CoqBytes(bs []byte) string {
 	s := make([]string, len(bs))
 	for i, x := range bs {
 		s[i] = fmt.Sprintf("%d", x)
 	}
 	return "[" + strings.Join(s, ";") + "]%Z"
 }
-func coqOpt(s string, ok bool) string {
+func CoqOpt(s string, ok bool) string {
 	if ok {
 		return "(Some " + s + ")"
 	}
